@@ -34,7 +34,7 @@ PROFILES = {
 
 DEFAULT_P = dict(zip_load=0.5, multi=0.6, oos=0.12, open_sw=0.15, bb_sw=0.5, trafo3w=0.5, imp=0.5, ward=0.4, xward=0.4,
                  shunt=0.5, gen=0.6, storage=0.4, motor=0.3, asym=0.2, dcline=0.15, mesh=0.5, tap=0.7, second_eg=0.3,
-                 z_sw=0.3, slack_gen=0.15, extra_island=0.0, eg_oos=0.0, ptap=0.3, tabular=0.0, sw_at_oos_bus=True,
+                 z_sw=0.3, slack_gen=0.15, extra_island=0.0, eg_oos=0.0, ptap=0.3, tabular=0.0, sw_at_oos_bus=True, co_slack=0.12,
                  n_hv=(2, 4), n_mv=(2, 6), n_lv=(0, 3), n_gen=(1, 2), sn_choices=(1., 10., 100., 37.5), f_hz=(50., 50., 60.))
 
 
@@ -171,6 +171,18 @@ def rnd_net(seed, profile="full_mix", overrides=None):
         vm2 = R(0.98, 1.05)
         pp.create_ext_grid(net, hv[-1], vm_pu=vm2, va_degree=float(net.ext_grid.va_degree.iloc[0]) + R(-2, 2))
         vm_of[hv[-1]] = vm2
+    if B(P.get("co_slack", 0.12)):
+        # a second slack machine on the slack bus itself or on a bus fused with it (same set-point)
+        if B(0.5):
+            pp.create_ext_grid(net, hv[0], vm_pu=eg_vm, va_degree=float(net.ext_grid.va_degree.iloc[0]), slack_weight=R(0.5, 2))
+        else:
+            bf = pp.create_bus(net, 110., name="slackfuse")
+            pp.create_switch(net, hv[0], bf, "b", closed=True)
+            if B(0.5):
+                pp.create_ext_grid(net, bf, vm_pu=eg_vm, va_degree=float(net.ext_grid.va_degree.iloc[0]))
+            else:
+                pp.create_gen(net, bf, p_mw=R(0, 5), vm_pu=eg_vm, slack=True, slack_weight=R(0.5, 2))
+            vm_of[bf] = eg_vm
     pq_b = mv + lv + ter
     for b in pq_b:
         s = _scale(net.bus.vn_kv.at[b])
